@@ -1,6 +1,8 @@
 package storetrace
 
 import (
+	"reflect"
+	"bytes"
 	"context"
 	"encoding/json"
 	"fmt"
@@ -63,7 +65,11 @@ type world struct {
 		age    int64
 	}
 	closed bool
+	// slices handles have returned, with a copy of what they held then
+	retained []retainedVal
 }
+
+type retainedVal struct{ live, copy []byte }
 
 func (w *world) now() time.Time { return time.Unix(w.clock, 0) }
 
@@ -318,7 +324,13 @@ func (w *world) step() {
 					res = "panic"
 				}
 			}()
-			res = "x" + hb(w.hands[n].Get())
+			got := w.hands[n].Get()
+			res = "x" + hb(got)
+			// what a handle returned stays what it was: keep the slice itself and a copy
+			w.retained = append(w.retained, retainedVal{got, append([]byte(nil), got...)})
+			if len(w.retained) > 64 {
+				w.retained = w.retained[1:]
+			}
 		}()
 		emit("read\tn=%s\tnow=%d\tval=%s\tsnap=%s", hx(n), w.clock, res, snapString(w.st))
 	case x < 9: // lookup
@@ -340,10 +352,40 @@ func (w *world) step() {
 		} else if h != nil {
 			w.hands[n] = h
 		}
+		// with lookups disabled the other routes to an unknown name are closed as well: an updater
+		// and a tagged struct field must be refused too (e = error, k = accepted, p = panic)
+		also := "-"
+		if res == "disabled" {
+			also = ""
+			try := func(f func() error) {
+				defer func() {
+					if p := recover(); p != nil {
+						also += "p"
+					}
+				}()
+				if f() != nil {
+					also += "e"
+				} else {
+					also += "k"
+				}
+			}
+			try(func() error {
+				_, err := setec.NewUpdater(context.Background(), w.st, n, func(b []byte) (int, error) { return len(b), nil })
+				return err
+			})
+			try(func() error {
+				typ := reflect.StructOf([]reflect.StructField{{Name: "F", Type: reflect.TypeOf([]byte(nil)), Tag: reflect.StructTag(fmt.Sprintf(`setec:%q`, n))}})
+				fs, err := setec.ParseFields(reflect.New(typ).Interface(), "")
+				if err != nil {
+					return err // the name cannot be written as a tag: not a route to it
+				}
+				return fs.Apply(context.Background(), w.st)
+			})
+		}
 		w.svc.mu.Lock()
 		delete(w.svc.script, n)
 		w.svc.mu.Unlock()
-		emit("lookup\tn=%s\tnow=%d\tres=%s\treqs=%s\tsnap=%s\twrites=%s", hx(n), w.clock, res, w.svc.reqs(), snapString(w.st), w.cache.takeWrites())
+		emit("lookup\talso=%s\tn=%s\tnow=%d\tres=%s\treqs=%s\tsnap=%s\twrites=%s", also, hx(n), w.clock, res, w.svc.reqs(), snapString(w.st), w.cache.takeWrites())
 	case x < 14: // poll (explicit refresh or background tick)
 		kind := "refresh"
 		if r.Intn(3) == 0 {
@@ -424,11 +466,25 @@ func (w *world) step() {
 				mid = "-" // the hook never fired (fewer requests than expected)
 			}
 		}
-		emit("poll\tkind=%s\tnow=%d\tmidpanic=%s\tmid=%s\tsvcbefore=%s\tsvc=%s\tres=%s\treqs=%s\tsnap=%s\twrites=%s", kind, w.clock, b01(midPanic), mid, before, w.svc.state(), res, w.svc.reqs(), snapString(w.st), w.cache.takeWrites())
+		torn := 0
+		for _, rv := range w.retained {
+			if !bytes.Equal(rv.live, rv.copy) {
+				torn++
+			}
+		}
+		emit("poll\ttorn=%d\tkind=%s\tnow=%d\tmidpanic=%s\tmid=%s\tsvcbefore=%s\tsvc=%s\tres=%s\treqs=%s\tsnap=%s\twrites=%s", torn, kind, w.clock, b01(midPanic), mid, before, w.svc.state(), res, w.svc.reqs(), snapString(w.st), w.cache.takeWrites())
 	case x < 16: // clock
 		d := pick(r, []int64{1, 5, 11, 100, 3601, 100000})
 		w.clock += d
 		emit("tick\td=%d\tnow=%d", d, w.clock)
+		if w.cache != nil && r.Intn(5) == 0 {
+			// the cache starts (or stops) rejecting writes: a transient failure
+			w.cache.mu.Lock()
+			w.cache.writeFail = !w.cache.writeFail
+			on := w.cache.writeFail
+			w.cache.mu.Unlock()
+			emit("cachefail\ton=%s", b01(on))
+		}
 	case x < 19: // the service changes
 		n := pick(r, pool)
 		if r.Intn(8) == 0 {
